@@ -80,6 +80,13 @@ def battery():
             present = list(dict.fromkeys(present + [k]))
         lines.append("map " + ";".join(ops))
         meta.append("map")
+    # toml::Table::deserialize from a serde stream whose size hint is absent, exact, too small or absurdly large
+    for _ in range(60):
+        n = rng.randrange(0, 6)
+        ks = [rng.choice(mk) for _ in range(n)]
+        hint = rng.choice(["none", str(n), "0", str(n + 3), "max", "max"])
+        lines.append("hint " + hint + "".join(f" {k} {rng.randrange(100)}" for k in ks))
+        meta.append("hint")
     return lines, meta
 
 
@@ -151,6 +158,15 @@ def run(ctx):
                 want = map_reference(ln, "preserve_order" in feats)
                 if x != want:
                     bad = f"toml::Table as a map: got `{x}`, a reference ordered map ({'insertion' if 'preserve_order' in feats else 'sorted'} order) gives `{want}`"
+            elif ln.startswith("hint"):
+                q = ln.split(" ")[2:]
+                d = {}
+                for kk, vv in zip(q[0::2], q[1::2]):
+                    d[kk] = int(vv)
+                items = list(d.items()) if "preserve_order" in feats else sorted(d.items())
+                want = "hint ok iter=" + ",".join(f"{a}={b}" for a, b in items)
+                if x != want:
+                    bad = f"toml::Table::deserialize from a serde stream with size hint `{ln.split(' ')[1]}`: got `{x}`, expected `{want}`"
             elif ln.startswith("doc"):
                 if "parse" not in feats:
                     continue
